@@ -108,13 +108,21 @@ def run_case(case):
                 unregistered.pop(id(a), None)
                 stale.pop(id(a), None)
                 continue
-            a, _, _ = pop.pop(ix)
+            a, mask_, tag_ = pop.pop(ix)
             for c in unregistered.pop(id(a), []):           # make the scheduler's view consistent again before the agent leaves
                 if a[type(c)] is c:
                     model.systems.register_component(c)
             for c in stale.pop(id(a), []):
                 model.systems.deregister_component(c)
             env.remove_agent(a.id)
+            if op.get("rejoin"):
+                # the very same agent object joins again (now last in joining order)
+                if grid:
+                    env.add_agent(a, (n_created + 1) % 4, n_created % 3)
+                else:
+                    env.add_agent(a)
+                pop.append((a, mask_, tag_))
+                labels.add("same-agent-object-joins-again")
         elif op["op"] == "retag":                     # documented: "you can assign it post-initialization: p1.tag = Tags.PREY"
             if not pop:
                 continue
@@ -237,7 +245,7 @@ def run_case(case):
 def strategy(tier):
     add = st.fixed_dictionaries({"op": st.just("add"), "mask": st.integers(0, 7), "tag": st.sampled_from([None, 0, 1, 1, 2, 7]),
                                  "akind": st.sampled_from(["agent", "agent", "agent", "agent", "nested-env", "crowd"])})
-    rem = st.fixed_dictionaries({"op": st.just("remove"), "k": st.integers(0, 7), "raw": st.booleans()})
+    rem = st.fixed_dictionaries({"op": st.just("remove"), "k": st.integers(0, 7), "raw": st.booleans(), "rejoin": st.sampled_from([False, False, True])})
     retag = st.fixed_dictionaries({"op": st.just("retag"), "k": st.integers(0, 7), "tag": st.sampled_from([0, 1, 2, 7])})
     toggle = st.fixed_dictionaries({"op": st.just("toggle"), "k": st.integers(0, 140), "t": st.integers(0, 2), "paired": st.booleans()})
     q = st.fixed_dictionaries({"op": st.just("query"), "tmpl": st.lists(st.sampled_from([0, 0, 1, 1, 2, 3, 4]), max_size=3),
